@@ -207,6 +207,16 @@ func Run(t *testing.T, prop, tier string, c *simcore.Choices, full bool) *simcor
 }
 
 func (w *world) violate(prop, oracle, format string, args ...any) {
+	if w.prop == "C14" && prop == "C15" {
+		// C14's oracles compare the real target with the real table and do not depend on the bookkeeping
+		// of the status oracles: a C14 run goes on, so that a status written for the wrong version is
+		// still judged by what it does to convergence
+		if w.probes["status-oracle-fired-run-continued"] == 0 {
+			w.S.Logf("(C15/%s fired; the run continues under the C14 oracles)", oracle)
+		}
+		w.probes["status-oracle-fired-run-continued"]++
+		return
+	}
 	w.S.Violate(prop, oracle, format, args...)
 }
 
